@@ -79,6 +79,18 @@ Theorem C08_nested_alias_clash_refuted :
   flat d9_decl = false /\ kf_duplicate_names [] d9_decl = true.
 Proof. vm_compute. auto. Qed.
 
+(* output files: the structs of one source file are written to pairwise different files exactly when their lower-cased
+   names are pairwise different (for any lower-casing function; the generator uses strings.ToLower) *)
+Theorem C08_output_files_distinct : forall lower src (Ts : list ident),
+  NoDup (map lower Ts) <-> NoDup (map (out_file lower src) Ts).
+Proof. exact out_files_distinct. Qed.
+Print Assumptions C08_output_files_distinct.
+
+(* open finding D36: type User and type user in one source file share x_user_validator.go *)
+Theorem C08_case_collision_refuted :
+  bs "User" <> bs "user" /\ out_file ascii_lower (bs "x") (bs "User") = out_file ascii_lower (bs "x") (bs "user").
+Proof. split; [discriminate|vm_compute; reflexivity]. Qed.
+
 (* ---------- non-vacuity ---------- *)
 Definition ex_decl : sdecl :=
   {| sd_name := bs "User"; sd_doc := [bs "//govalid:required"];
